@@ -1,10 +1,247 @@
 import ScryerModel.Proofs.NumLex
-/-! # C16 — Numeric literals and number/text conversions are exact (theorems; in progress) -/
+/-!
+# C16 — Numeric literals and number/text conversions are exact
+
+Theorems over `Model/NumLex.lean`, the branch-by-branch mirror of the lexer's number path
+(`number_token`, `skip_underscore_in_number`, `scan_for_layout`, `hexadecimal/octal/binary_constant`,
+the `0'c` readers, `next_number_token`, `parse_number_from_string`) with the reader modelled as the
+remaining `List Char`. All statements are for texts of ANY length and integers of ANY size.
+
+Vocabulary. `Cont s ds`: after the first digit, the spelled text `s` continues a decimal integer
+and contributes the digits `ds` (`s` = digits and `_ layout* digit` groups). `horner r ds` is the
+positional value. `NumTok.dec m e` is the exact decimal `m × 10^e` of a float token; `rneOK n d b`
+says that the bit pattern `b` is the IEEE-754 binary64 round-to-nearest-even image of `n/d`
+(`V b` = value of pattern `b` in units of `2^-1074`). The model is the REPAIRED lexer: correctly
+rounded floats (finding C16-1: the pinned code parses with lexical's `lossy` option) and a digit
+group separator must be followed by a digit (C16-3); `Pinned.numberFromText` keeps the pinned
+behaviour of the latter and `C16_pinned_underscore_witness` shows it violates the statement.
+-/
 namespace Scryer.NumLex
 
-/-- appending a digit multiplies by the radix and adds the digit (positional value). -/
-theorem C16_horner_snoc (radix : Nat) (ds : List Char) (c : Char) :
-    horner radix (ds ++ [c]) = horner radix ds * radix + digitVal c := by
-  simp [horner, hornerFrom_append, hornerFrom]
+/-! ## Positional value -/
+
+/-- The value of a digit string in radix `r` is positional: prepending a digit adds
+`digit · r^(length)`, appending one multiplies by `r` (Horner = Σ dᵢ·r^(n-1-i)). -/
+theorem C16_value_positional (r : Nat) (c : Char) (ds : List Char) :
+    horner r (c :: ds) = digitVal c * r ^ ds.length + horner r ds ∧
+    horner r (ds ++ [c]) = horner r ds * r + digitVal c :=
+  ⟨horner_cons r c ds, horner_snoc r ds c⟩
+
+/-- Leading zeros are irrelevant, in every radix. -/
+theorem C16_leading_zeros (r k : Nat) (ds : List Char) :
+    horner r (List.replicate k '0' ++ ds) = horner r ds := by
+  rw [horner_append, horner_replicate_zero]; simp
+
+/-! ## Integer literals: value and maximal prefix -/
+
+/-- A decimal integer literal (digits with `_` groups, layout allowed after `_`) followed by a
+character that cannot continue it — not a digit, `_`, `.`, and after a lone `0` not `x o b '` —
+is read as exactly its positional value, and the reader stops exactly in front of that character. -/
+theorem C16_decimal_literal {d : Char} {s ds : List Char} (hd : isDigit d = true) (h : Cont s ds)
+    (strict : Bool) (c : Char) (r : List Char) (hc : isDigit c = false) (hu : c ≠ '_')
+    (hp : PlainStop (d :: ds) c) :
+    numberToken strict (d :: (s ++ c :: r)) = .ok (.int (horner 10 (d :: ds)), c :: r) :=
+  numberToken_int hd h strict c r hc hu hp
+
+/-- A `.` that is not followed by a digit does not belong to the number: `X = 1.` reads the
+integer and leaves the end token (trailing-dot look-ahead). -/
+theorem C16_integer_before_dot {d : Char} {s ds : List Char} (hd : isDigit d = true)
+    (h : Cont s ds) (strict : Bool) (r : List Char) (hr : ∀ c r', r = c :: r' → isDigit c = false) :
+    numberToken strict (d :: (s ++ '.' :: r)) = .ok (.int (horner 10 (d :: ds)), '.' :: r) :=
+  numberToken_int_dot hd h strict r hr
+
+/-- `0x…`, `0o…`, `0b…`: the value is the positional value of the maximal run of digits of the
+radix (hex digits in either case); the reader stops in front of the first non-digit. -/
+theorem C16_radix_literal (strict : Bool) (p : Char) (isDig : Char → Bool) (radix : Nat)
+    (hp : (p = 'x' ∧ isDig = isHex ∧ radix = 16) ∨ (p = 'o' ∧ isDig = isOct ∧ radix = 8) ∨
+          (p = 'b' ∧ isDig = isBin ∧ radix = 2))
+    (x : Char) (xs : List Char) (hx : isDig x = true) (hxs : ∀ c ∈ xs, isDig c = true)
+    (rest : List Char) (hr : ∀ c r, rest = c :: r → isDig c = false) :
+    numberToken strict ('0' :: p :: x :: (xs ++ rest)) = .ok (.int (horner radix (x :: xs)), rest) :=
+  numberToken_radix strict p isDig radix hp x xs hx hxs rest hr
+
+/-- A radix letter that is not followed by a digit of its radix is not part of the literal:
+the number is `0` and the letter is read again as the next token. -/
+theorem C16_radix_letter_alone (strict : Bool) (p c : Char) (r : List Char)
+    (hp : (p = 'x' ∧ isHex c = false) ∨ (p = 'o' ∧ isOct c = false) ∨ (p = 'b' ∧ isBin c = false)) :
+    numberToken strict ('0' :: p :: c :: r) = .ok (.int 0, p :: c :: r) :=
+  numberToken_radix_fallback strict p c r hp
+
+/-! ## Character literals -/
+
+/-- `0'c` is the code point of `c` for every character that needs no escape (any character that
+is not white space other than the space, not a control character, not `\ ' " ` `). -/
+theorem C16_char_literal_plain (strict : Bool) (c : Char) (rest : List Char)
+    (h : isPlainQuotedChar c = true) :
+    numberToken strict ('0' :: '\'' :: c :: rest) = .ok (.int c.toNat, rest) :=
+  numberToken_char_plain strict c rest h
+
+/-- The quote must be doubled (`0'''` = 39); `"` and `` ` `` stand for themselves; a single quote
+followed by anything else is not a character literal: the number is `0` and both quotes remain. -/
+theorem C16_char_literal_quotes (strict : Bool) (rest : List Char) :
+    numberToken strict ('0' :: '\'' :: '\'' :: '\'' :: rest) = .ok (.int 39, rest) ∧
+    numberToken strict ('0' :: '\'' :: '"' :: rest) = .ok (.int 34, rest) ∧
+    numberToken strict ('0' :: '\'' :: '`' :: rest) = .ok (.int 96, rest) ∧
+    (∀ c, c ≠ '\'' → numberToken strict ('0' :: '\'' :: '\'' :: c :: rest) =
+      .ok (.int 0, '\'' :: '\'' :: c :: rest)) :=
+  ⟨(numberToken_char_quotes strict rest).1, (numberToken_char_quotes strict rest).2.1,
+   (numberToken_char_quotes strict rest).2.2, fun c hc => numberToken_char_lone_quote strict c rest hc⟩
+
+/-- Escapes: `\a \b \v \f \t \n \r` give 7 8 11 12 9 10 13; a backslash followed by a meta
+character (`\\ \' \" \``) gives that character. -/
+theorem C16_char_literal_escapes (strict : Bool) (e : Char) (rest : List Char) :
+    (∀ n, controlEscape e = some n →
+      numberToken strict ('0' :: '\'' :: '\\' :: e :: rest) = .ok (.int n, rest)) ∧
+    (isMeta e = true →
+      numberToken strict ('0' :: '\'' :: '\\' :: e :: rest) = .ok (.int e.toNat, rest)) :=
+  ⟨fun n h => numberToken_char_control strict e n rest h, numberToken_char_meta strict e rest⟩
+
+/-! ## Float literals: exact decimal value and maximal prefix -/
+
+/-- `I.F` (at least one digit after the dot), followed by something that is neither a digit nor
+an exponent marker: the token denotes exactly `digits(I F) × 10^(-|F|)`. -/
+theorem C16_float_literal {d : Char} {s ds : List Char} (hd : isDigit d = true) (h : Cont s ds)
+    (strict : Bool) (f : Char) (fs : List Char) (hf : isDigit f = true)
+    (hfs : ∀ c ∈ fs, isDigit c = true) (c : Char) (r : List Char)
+    (hc : isDigit c = false) (he : c ≠ 'e' ∧ c ≠ 'E') :
+    numberToken strict (d :: (s ++ '.' :: f :: (fs ++ c :: r))) =
+      .ok (.dec (horner 10 (d :: ds ++ f :: fs)) (- ((f :: fs).length : Int)), c :: r) :=
+  numberToken_frac hd h strict f fs hf hfs c r hc he
+
+/-- `I.F e [+-] X` with at least one exponent digit: exactly `digits(I F) × 10^(±X - |F|)`; the
+reader stops in front of the first character after the exponent digits. -/
+theorem C16_float_literal_exponent {d : Char} {s ds : List Char} (hd : isDigit d = true)
+    (h : Cont s ds) (strict : Bool) (f : Char) (fs : List Char) (hf : isDigit f = true)
+    (hfs : ∀ c ∈ fs, isDigit c = true) (ec : Char) (hec : ec = 'e' ∨ ec = 'E')
+    (sg : List Char) (hsg : sg = [] ∨ sg = ['+'] ∨ sg = ['-'])
+    (x : Char) (xs : List Char) (hx : isDigit x = true) (hxs : ∀ c ∈ xs, isDigit c = true)
+    (c : Char) (r : List Char) (hc : isDigit c = false) :
+    numberToken strict (d :: (s ++ '.' :: f :: (fs ++ ec :: (sg ++ x :: (xs ++ c :: r))))) =
+      .ok (.dec (horner 10 (d :: ds ++ f :: fs))
+            (expOfToken (sg ++ x :: xs) - ((f :: fs).length : Int)), c :: r) :=
+  numberToken_exp hd h strict f fs hf hfs ec hec sg hsg x xs hx hxs c r hc
+
+/-- Exponent back-out: an `e`/`E` that is not followed by `[+-]? digit` is not part of the float;
+the token is `I.F` and the reader resumes AT the `e` (sign and marker are both returned). -/
+theorem C16_float_exponent_backout (tok : List Char) (ec : Char) (r : List Char)
+    (h : r = [] ∨ (∃ c r', r = c :: r' ∧ isDigit c = false ∧ c ≠ '+' ∧ c ≠ '-') ∨
+         (∃ sg r', r = sg :: r' ∧ (sg = '+' ∨ sg = '-') ∧ ∀ c r'', r' = c :: r'' → isDigit c = false)) :
+    exponentPart tok ec r = mkDec tok (ec :: r) :=
+  exponentPart_backout tok ec r h
+
+/-! ## Correct rounding -/
+
+/-- The binary64 grid is strictly increasing in the bit pattern (so adjacent patterns are
+adjacent values, across exponent boundaries, subnormal/normal and up to the overflow threshold). -/
+theorem C16_grid_strictMono {a b : Nat} (h : a < b) : V a < V b := V_strictMono h
+
+/-- The rounding specification determines the result: at most one pattern is the
+round-to-nearest-even image of a given rational. -/
+theorem C16_rne_unique {n d b b' : Nat} (hd : 0 < d) (h : rneOK n d b = true)
+    (h' : rneOK n d b' = true) : b = b' := rneOK_unique hd h h'
+
+/-- The executable rounding function meets the specification for every rational `n/d`: the float
+value of a literal is the correctly rounded double of its exact decimal value. -/
+theorem C16_rne_correct (n d : Nat) (hd : 0 < d) : rneOK n d (rne n d) = true := rne_sound n d hd
+
+/-- Exactness: every representable value rounds to itself. -/
+theorem C16_rne_exact (b : Nat) (hb : b ≤ infBits) : rne (V b) scale = b :=
+  rneOK_unique (Nat.pow_pos (by decide)) (rne_sound _ _ (Nat.pow_pos (by decide))) (rneOK_exact b hb)
+
+/-- Monotonicity: `n/d ≤ n'/d'` implies `rne (n/d) ≤ rne (n'/d')`. -/
+theorem C16_rne_monotone {n d n' d' : Nat} (hd : 0 < d) (hd' : 0 < d') (h : n * d' ≤ n' * d) :
+    rne n d ≤ rne n' d' :=
+  rneOK_mono hd hd' h (rne_sound n d hd) (rne_sound n' d' hd')
+
+/-- The bits the model gives to the exact decimal `m × 10^e` are its correctly rounded double —
+proved inside the window `10^-330 ≤ m × 10^e < 10^310` (outside it the model answers 0 / overflow
+without computing the power; that shortcut is compared with the implementation only). -/
+theorem C16_decimal_correctly_rounded_partial (m : Nat) (e : Int) (hm : m ≠ 0)
+    (h1 : ¬ ((numDigits (m + 1) m : Nat) : Int) + e > 310)
+    (h2 : ¬ ((numDigits (m + 1) m : Nat) : Int) + e < -330) :
+    decRoundsTo m e (decToBits m e) = true := decToBits_sound m e hm h1 h2
+
+/-- Sign symmetry: a `-` in front of a literal negates the value exactly (integers of any size;
+floats: the same magnitude pattern with the sign bit; zero stays the one zero of this system). -/
+theorem C16_sign_symmetric (t : NumTok) :
+    (∀ n, t = .int n → tokValue true t = .ok (.int (-(n : Int))) ∧ tokValue false t = .ok (.int n)) ∧
+    (∀ m e b, t = .dec m e → tokValue false t = .ok (.flt b) →
+      tokValue true t = .ok (.flt (if b = 0 then 0 else signBit + b))) := by
+  constructor
+  · rintro n rfl; simp [tokValue]
+  · rintro m e b rfl h
+    simp only [tokValue] at h ⊢
+    split at h
+    · cases h
+    · rename_i hlt
+      simp only [Bool.false_and, Bool.false_eq_true, if_false] at h
+      cases h
+      simp only [hlt, if_false, Bool.true_and]
+      by_cases h0 : decToBits m e = 0 <;> simp [h0]
+
+/-! ## number ↔ text -/
+
+/-- Round trip, for every integer: printing in decimal and reading the text back through the
+`number_chars`/`number_codes` entry gives the same integer. -/
+theorem C16_integer_roundtrip (i : Int) : numberFromText (showInt i) = .ok (.int i) :=
+  numberFromText_showInt i
+
+/-- The printed text consists of decimal digits only (after the optional `-`), has no leading
+zero issue for the value, and its positional value is the magnitude. -/
+theorem C16_showNat_spec (n : Nat) :
+    (∀ c ∈ showNat n, isDigit c = true) ∧ showNat n ≠ [] ∧ horner 10 (showNat n) = n :=
+  ⟨showNat_digits n, showNat_ne_nil n, showNat_value n⟩
+
+/-- `number_chars`/`number_codes` accept leading layout … -/
+theorem C16_text_leading_layout (lay : List Char) (hl : ∀ x ∈ lay, isLayout x = true)
+    {d : Char} (hd : isDigit d = true) (s : List Char) :
+    numberFromText (lay ++ d :: s) = numberFromText (d :: s) := numberFromText_layout lay hl hd s
+
+/-- … and `-` (optionally followed by layout) in front of a literal that fills the rest of the
+text: the result is the negated value; without the sign it is the value itself. -/
+theorem C16_text_sign (lay : List Char) (hl : ∀ x ∈ lay, isLayout x = true)
+    {d : Char} (hd : isDigit d = true) (s : List Char) (t : NumTok)
+    (h : numberToken true (d :: s) = .ok (t, [])) :
+    numberFromText (d :: s) = tokValue false (completePartial t) ∧
+    numberFromText ('-' :: (lay ++ d :: s)) = tokValue true (completePartial t) :=
+  ⟨numberFromText_complete hd s t h, numberFromText_minus lay hl hd s t h⟩
+
+/-- Anything after the literal (even layout) is a syntax error; so are a leading `+` and the
+empty text. -/
+theorem C16_text_rejects {d : Char} (hd : isDigit d = true) (s : List Char) :
+    (∀ t c r, numberToken true (d :: s) = .ok (t, c :: r) →
+      numberFromText (d :: s) = .error (.unexpChar c)) ∧
+    numberFromText ('+' :: d :: s) = .error .other ∧
+    numberFromText [] = .error .eof :=
+  ⟨fun t c r h => numberFromText_trailing hd s t c r h, numberFromText_plus hd s, rfl⟩
+
+/-- Witness for finding C16-3: the pinned commit accepts `1_` (a separator followed by nothing)
+as the number 1, which the reader rejects; the repaired model rejects it. -/
+theorem C16_pinned_underscore_witness :
+    Pinned.numberFromText ['1', '_'] = .ok (.int 1) ∧
+    numberFromText ['1', '_'] = .error .bigInt := by
+  constructor <;> rfl
+
+/-! ## Non-vacuity -/
+
+example : Cont ['2', '_', ' ', '\n', '3'] ['2', '3'] :=
+  .dig (by decide) (.sep [' ', '\n'] (by decide) (by decide) .nil)
+example : numberToken true "1_000 ".toList = .ok (.int 1000, [' ']) := by decide
+example : numberToken true "0xfF.".toList = .ok (.int 255, ['.']) := by decide
+example : numberToken true "0'a)".toList = .ok (.int 97, [')']) := by decide
+example : numberToken true "0'\\x41\\ ".toList = .ok (.int 65, [' ']) := by decide
+example : numberToken true "12.5e-3,".toList = .ok (.dec 125 (-4), [',']) := by decide
+example : numberToken true "1.0e+a".toList = .ok (.dec 10 (-1), ['e', '+', 'a']) := by decide
+example : numberToken true "1.e5".toList = .ok (.int 1, ['.', 'e', '5']) := by decide
+example : numberFromText " - 12".toList = .ok (.int (-12)) := by decide
+example : numberFromText "12 ".toList = .error (.unexpChar ' ') := by decide
+example : numberFromText "0'\\e".toList = .error (.unexpChar 'e') := by decide
+example : rneOK 1 10 0x3FB999999999999A = true := by decide +kernel
+example : rne 1 10 = 0x3FB999999999999A := by decide +kernel
+/-- the midpoint between 2^53 and 2^53+2 goes to the even pattern -/
+example : rne 9007199254740993 1 = 0x4340000000000000 := by decide +kernel
+/-- overflow threshold: the midpoint between the largest double and 2^1024 is infinite -/
+example : rne (2 ^ 1024 - 2 ^ 970) 1 = infBits := by decide +kernel
+example : rne (2 ^ 1024 - 2 ^ 970 - 1) 1 = 0x7FEFFFFFFFFFFFFF := by decide +kernel
 
 end Scryer.NumLex
